@@ -306,3 +306,11 @@ def is_pulse(view, sig, depth=0, seen=None):
 
 def support_keys(t):
     return {s for s in support(t)}
+
+
+def pobj(name, cls="object"):
+    """An opaque, certainly-not-None parameter object: attribute reads give Sym('<name>.<attr>')."""
+    o = Obj(cls, kind="param")
+    o.name = name
+    o.provisional = False
+    return o
